@@ -14,7 +14,7 @@ public/handler root that reaches it (h18.site_verdict); proofs are value ranges 
 import re
 
 from ..core import (AnalysisBroken, Inliner, canon, strip, strip_load, last_member, must_pass, norm_cond, walk,
-                    forward, lvalue_steps, lvalue_root, names_of, subst, PRIMITIVES, _open_coded_list_empty)
+                    forward, lvalue_steps, lvalue_root, names_of, subst, PRIMITIVES, _open_coded_list_empty, root_var)
 from .. import generic, roles
 from ..analyses import (is_call, atoms_imply, path_to, exits_of, delta_analysis, is_fail, locksets, held, list_empty_test,
                         callback_kind)
@@ -131,10 +131,20 @@ def run(ctx):
     ctx.rule('R-C18a.radix', 'timer radix tree tear-down frees exactly the library\'s own nodes: a subtree handed to the recursive release is '
                              'given its true level (one below the node it hangs off), the recursion descends only above the leaves, '
                              'and tear-down removes levels until the depth is zero', floor=4)
+    ctx.rule('R-C18j', 'OWNED-BLOCK: a library-acquired block whose address is kept in a private field of a user-visible object is owned '
+                       'by that object alone: whenever the field is overwritten, the block it held was released (free) or handed to a '
+                       'cache list on every path in every calling context, or was known to be absent (NULL), or is still held by a local '
+                       'that is released/handed over before the return -- the only pointer to it is never dropped; the call that ends '
+                       'the object\'s life leaves no block attached; no entry point returns with a block both attached and released', floor=4)
+    ctx.rule('R-C18j.fd', 'a block whose member array received descriptors from pipe()/pipe2() is passed to free only after every one of '
+                          'them was closed, on every path in its calling context, unless the path tests the mode under which the '
+                          'descriptors are acquired as off, or the block was allocated in this very activation', floor=1)
     ctx.section(radix)
     ctx.section(array_bounds)
     ctx.section(kernel_writes)
     ctx.section(tls_hooks)
+    ctx.section(owned_blocks)
+    ctx.section(owned_descriptors)
 
 
 # --------------------------------------------------------------------------
@@ -1721,3 +1731,520 @@ def radix(ctx):
     none_left = any(atoms_imply(A, '==', n_, str(o)) or atoms_imply(A, '<=', n_, str(o)) for (n_, o) in cands)
     ctx.ob('R-C18a.radix', 'timer_deinit:all-levels-removed', 'iv_timer_deinit' in reached_from and none_left, loc=d.loc,
            detail='iv_timer_deinit reaches the level removal and returns only with the depth == 0', fn=d.q)
+
+
+# --------------------------------------------------------------------------
+# R-C18j: blocks owned through a private field of a user-visible object
+# --------------------------------------------------------------------------
+
+# exported API: user-visible record -> the call(s) after which the user may dispose of the object.  The owning field is found by
+# role (a private field of the record into which a freshly acquired block is stored); so is the function that starts the
+# object's life (generic.OBJECT_KINDS: reg / INIT).
+OWNER_END = {'iv_fd_pump': ('iv_fd_pump_destroy',)}
+
+
+def _kind_of_record(rec):
+    for K in generic.OBJECT_KINDS:
+        if K['rec'] == rec:
+            return K
+    return None
+
+
+def owning_fields(prog):
+    """{(record, field): [(function, store event)]}: private fields of user-visible object kinds into which a block that the
+    library acquired (malloc/calloc, directly or through its own allocation helpers) is stored"""
+    acq = acquirers(prog)
+    out = {}
+
+    def scan(g, f, V=None):
+        unit = prog.unit_of(f)
+        kind = lambda x, tn: prog._c18_kind_of(x, unit, tn)
+        tainted = None
+        for e in g.events():
+            if e['ev'] != 'store' or e.get('op') != '=' or 'rhs' not in e:
+                continue
+            lhs = h18.deref_norm(V, e['lhs']) if V is not None else e['lhs']
+            lm = last_member(lhs)
+            K = _kind_of_record(lm[0]) if lm else None
+            if K is None or lm[1] in K['user']:
+                continue
+            if tainted is None:
+                tainted = _tainted(g, kind)
+            if kind(e['rhs'], tainted) == 'mem':
+                out.setdefault(lm, []).append((f, e))
+    for f in prog.all_funcs():
+        if f.blocks:
+            scan(f, f)
+    for rec in OWNER_END:
+        if any(k[0] == rec for k in out):
+            continue
+        # the store may be made through an out-parameter or a helper: look at the entry points that take the object
+        for r in roles.roots(prog):
+            if any(p.get('record') == rec or ('struct %s *' % rec) in (p.get('type') or '') for p in r.params):
+                g = roles.inlined(prog, r)
+                scan(g, r, view_of(prog, g))
+    return out
+
+
+def _roots_touching(prog, rec, fld):
+    rts = {r.q: r for r in roles.roots(prog)}
+    need = {}
+    for f in prog.all_funcs():
+        if not f.blocks:
+            continue
+        hit = False
+        for e in f.events():
+            if any(x.get('k') == 'member' and (x.get('record'), x.get('field')) == (rec, fld) for x in walk(e)):
+                hit = True
+                break
+        if not hit:
+            for b in f.blocks.values():
+                c = b.term.get('cond') if b.term else None
+                if isinstance(c, dict) and any(x.get('k') == 'member' and (x.get('record'), x.get('field')) == (rec, fld) for x in walk(c)):
+                    hit = True
+                    break
+        if hit:
+            for c in roles.callers_closure(prog, f):
+                if c.q in rts:
+                    need[c.q] = c
+    return [need[q] for q in sorted(need)]
+
+
+def owned_blocks(ctx):
+    prog = ctx.prog
+    fields = owning_fields(prog)
+    for rec in sorted(OWNER_END):
+        if not any(k[0] == rec for k in fields):
+            raise AnalysisBroken('no library-acquired block is stored into a private field of %s' % rec)
+    for (rec, fld), stores in sorted(fields.items()):
+        if rec not in OWNER_END:
+            ctx.note('R-C18j: %s.%s holds a library-acquired block (%s) that objects registered with the loop refer to as well; its '
+                     'release by their handlers is not judged here' % (rec, fld, stores[0][0].name))
+            continue
+        K = _kind_of_record(rec)
+        births = set(K['reg']) | ({K['init']} if K.get('init') else set())
+        ends = [n for n in OWNER_END[rec] if prog.has_fn(n)]
+        if not ends:
+            raise AnalysisBroken('%s: none of the end-of-life functions %s exists' % (rec, '/'.join(OWNER_END[rec])))
+        roots_ = _roots_touching(prog, rec, fld)
+        sites, lost, where = {}, {}, {}
+        per_root = []
+        for r in roots_:
+            g = roles.inlined(prog, r)
+            V = view_of(prog, g)
+            keys = h18.field_keys(V, rec, fld)
+            for key in sorted(keys):
+                s_, l_, exits, _n = h18.owned_flow(V, rec, fld, key, r.name in births)
+                for loc, e in s_.items():
+                    sites.setdefault(loc, e)
+                    where.setdefault(loc, set()).add(r.name)
+                for loc, why in l_.items():
+                    lost.setdefault(loc, (why, r.name))
+                per_root.append((r, key, exits))
+        if not sites:
+            raise AnalysisBroken('%s.%s: no store to the owning field found in any entry point' % (rec, fld))
+        for loc, e in sorted(sites.items(), key=lambda kv: h18._locpos(kv[0])):
+            fn_ = (e.get('fn') or '').split(':')[-1] or '/'.join(sorted(where[loc]))
+            bad = lost.get(loc)
+            ctx.ob('R-C18j', '%s.%s:store in %s' % (rec, fld, fn_), bad is None, loc=loc,
+                   detail=('%s [entry point %s]' % bad) if bad else
+                   'the block the field held before this store is released, handed to a cache list, known to be absent, or kept in a '
+                   'local that is released before the return, on every path of %s' % '/'.join(sorted(where[loc])), fn=e.get('fn'))
+        for (r, key, exits) in per_root:
+            if r.name in ends:
+                ctx.ob('R-C18j', '%s:%s.%s released at return' % (r.name, rec, fld), 'live' not in exits, loc=r.loc,
+                       detail='at every return of the call that ends the object\'s life the block attached through %s has been released, '
+                              'handed to a cache list, or there was none (found: %s)' % (key, '/'.join(sorted(exits)) or 'no return'), fn=r.q)
+            ctx.ob('R-C18j', '%s:%s.%s not both attached and released' % (r.name, rec, fld), not ({'freed', 'handed'} & exits), loc=r.loc,
+                   detail='no return leaves the field pointing to a block that was passed to free or handed to a cache list in this call '
+                          '(found: %s)' % ('/'.join(sorted(exits)) or 'no return'), fn=r.q)
+        for n in ends:
+            if not any(r.name == n for (r, _, _) in per_root):
+                ctx.ob('R-C18j', '%s:%s.%s released at return' % (n, rec, fld), False, loc=prog.fn(n).loc,
+                       detail='the call that ends the object\'s life does not look at the owning field at all', fn=prog.fn(n).q)
+
+
+# --------------------------------------------------------------------------
+# R-C18j.fd: descriptors kept inside a heap block are closed before the block is freed
+# --------------------------------------------------------------------------
+
+PIPE_CALLS = {'pipe': 0, 'pipe2': 0}
+PIPE_SYSCALLS = {22: 1, 293: 1}          # x86-64: pipe, pipe2 (argument position of the descriptor pair)
+CLOSE = ('close',)
+
+
+def _pipe_target(e):
+    """the expression handed to pipe()/pipe2() to receive the descriptor pair, else None"""
+    if e['ev'] != 'call':
+        return None
+    c, args = e.get('callee'), e.get('args') or []
+    if c in PIPE_CALLS and len(args) > PIPE_CALLS[c]:
+        return args[PIPE_CALLS[c]]
+    if c == 'syscall' and args and _intval(args[0]) in PIPE_SYSCALLS and len(args) > PIPE_SYSCALLS[_intval(args[0])]:
+        return args[PIPE_SYSCALLS[_intval(args[0])]]
+    return None
+
+
+def _heap_member(V, x):
+    """(record of the block, field path inside it, pointer expression) for `P->a.b` (P a pointer to a heap record)"""
+    x = strip(h18.deref_norm(V, x)) if V is not None else strip(x)
+    n = 0
+    while isinstance(x, dict) and x.get('k') == 'var' and V is not None and n < 4:
+        y = V.resolve(x)
+        if y is x or not isinstance(y, dict) or y.get('k') == 'var' and y.get('name') == x.get('name'):
+            break
+        x = strip(y)
+        n += 1
+    if isinstance(x, dict) and x.get('k') == 'addr':        # &P->a.b[0]
+        y = strip(x['e'])
+        if isinstance(y, dict) and y.get('k') == 'index' and _intval(y.get('idx')) == 0:
+            x = strip(y['base'])
+    path = []
+    while isinstance(x, dict) and x.get('k') == 'member':
+        path.append(x['field'])
+        if x.get('arrow'):
+            return x.get('record'), tuple(reversed(path)), x['base']
+        x = strip(x['base'])
+    return None
+
+
+def _local_array(V, t):
+    t = strip(h18.deref_norm(V, t)) if V is not None else strip(t)
+    if isinstance(t, dict) and t.get('k') == 'addr':
+        y = strip(t['e'])
+        if isinstance(y, dict) and y.get('k') == 'index' and _intval(y.get('idx')) == 0:
+            t = strip(y['base'])
+    if isinstance(t, dict) and t.get('k') == 'var' and t.get('vk') in ('local', 'param'):
+        return t['name']
+    return None
+
+
+def _copied_pair(V, g, t):
+    """pipe() filled a local pair whose elements are then stored into a member array of a heap block: that member"""
+    la = _local_array(V, t)
+    if la is None:
+        return None
+    for e in g.events():
+        if e['ev'] == 'store' and e.get('op') == '=' and 'rhs' in e:
+            r = strip(e['rhs'])
+            l = strip(e['lhs'])
+            if isinstance(r, dict) and r.get('k') == 'index' and var_name(r.get('base')) == la and \
+                    isinstance(l, dict) and l.get('k') == 'index':
+                hm = _heap_member(V, l['base'])
+                if hm is not None and hm[0]:
+                    return hm
+    return None
+
+
+def _contradicts(a, b):
+    """two atoms (op, name, integer text) about the same name cannot both hold"""
+    if a[1] != b[1]:
+        return False
+    try:
+        ca, cb = int(a[2]), int(b[2])
+    except ValueError:
+        return False
+    sat = {'==': lambda v, c: v == c, '!=': lambda v, c: v != c, '<': lambda v, c: v < c, '<=': lambda v, c: v <= c,
+           '>': lambda v, c: v > c, '>=': lambda v, c: v >= c}
+    if a[0] not in sat or b[0] not in sat:
+        return False
+    return not any(sat[a[0]](v, ca) and sat[b[0]](v, cb) for v in (ca - 1, ca, ca + 1, cb - 1, cb, cb + 1))
+
+
+def descriptor_blocks(prog):
+    """{(heap record, field path): (guard atoms, [acquisition sites])}: member arrays of heap blocks that pipe()/pipe2() fills,
+    with the conditions on file-scope variables under which every such acquisition is made (the mode)"""
+    owners = roles.functions_with(prog, lambda e: _pipe_target(e) is not None)
+    rts = {r.q: r for r in roles.roots(prog)}
+    found = {}
+    for o in owners:
+        ctxs = {}
+        for c in roles.callers_closure(prog, o):
+            if c.q in rts:
+                ctxs[c.q] = c
+        for q in sorted(ctxs):
+            r = ctxs[q]
+            g = roles.inlined(prog, r)
+            V = view_of(prog, g)
+            unit = prog.unit_of(r)
+            for e in g.events():
+                t = _pipe_target(e)
+                if t is None or e.get('fn', r.q) != o.q:
+                    continue
+                hm = _heap_member(V, t)
+                if hm is None or not hm[0]:
+                    hm = _copied_pair(V, g, t)        # pipe(local pair), then X->member[i] = pair[j]
+                if hm is None or not hm[0]:
+                    continue
+                guards = set()
+                for a in V.at(e):
+                    if a[0] in ('==', '!=', '<', '<=', '>', '>=') and a[2].lstrip('-').isdigit():
+                        x = V.expr_named(a[1])
+                        rv = None
+                        if isinstance(x, dict):
+                            rv = root_var(x)
+                        if (rv is not None and rv.get('vk') in ('global', 'staticlocal')) or \
+                                (x is None and prog.global_for(unit, a[1]) is not None):
+                            guards.add((a[0], a[1], a[2]))
+                ent = found.setdefault((hm[0], hm[1]), [None, []])
+                ent[0] = guards if ent[0] is None else (ent[0] & guards)
+                ent[1].append((r, e))
+    return {k: (frozenset(v[0] or ()), v[1]) for k, v in found.items()}
+
+
+def _pipe_target_node(x):
+    if isinstance(x, dict) and x.get('k') == 'call':
+        return _pipe_target(dict(x, ev='call'))
+    return None
+
+
+def _closed_before_free(prog, V, site, rec, path, guards, n=2):
+    """(proof, detail) for `free(X)` at `site`.  Configurations (names, closed, off, hold) per path from the entry of the viewed
+    function: names = locals holding X's value, closed = indices of X->path[] passed to close since, off = the path took an edge
+    that contradicts a mode guard, hold = what the block may hold: 'unknown' (it came from elsewhere), 'none' (fresh from
+    malloc/calloc, nothing acquired since), ('pending', R, prior) (pipe() was called, its result is in the locals R and untested),
+    ('ok', R) (acquired; the locals R are 0).  Proven iff on every path: off, or hold == 'none', or all n indices closed."""
+    g = V.g
+    xn = var_name(site['args'][0])
+    gnames = {a[1] for a in guards}
+    unit = prog.unit_of(g)
+
+    def member_of_x(x, names):
+        hm = _heap_member(V, x)
+        return hm is not None and hm[1] == path and var_name(hm[2]) in names
+
+    def about_x(a, names):
+        a = strip(a)
+        if var_name(a) in names:
+            return True
+        r = h18.interior_root(a)
+        if r is not None and var_name(r) in names:
+            return True
+        hm = _heap_member(V, a)
+        return hm is not None and var_name(hm[2]) in names
+
+    def closed_index(a, names, pt, env):
+        a = strip(a)
+        k = 0
+        while isinstance(a, dict) and a.get('k') == 'var' and k < 4:
+            y = V.resolve(a)
+            if not isinstance(y, dict) or (y.get('k') == 'var' and y.get('name') == a.get('name')):
+                break
+            a = strip(y)
+            k += 1
+        if not isinstance(a, dict) or a.get('k') != 'index':
+            return None
+        if not member_of_x(a['base'], names):
+            return None
+        c = V.const_int(a['idx'], pt)
+        if c is not None:
+            return frozenset([c])
+        iv = var_name(a['idx'])
+        if iv is not None and iv in dict(env):
+            return frozenset([dict(env)[iv]])
+        lo, hi = V.range(a['idx'], pt)
+        if lo == hi:
+            return frozenset([int(lo)])
+        if lo == 0 and hi == n - 1:
+            return frozenset(range(n))       # a loop over the whole pair
+        return frozenset()
+
+    def rnames_of(hold):
+        return hold[1] if isinstance(hold, tuple) else frozenset()
+
+    def with_rnames(hold, R):
+        if not isinstance(hold, tuple):
+            return hold
+        if hold[0] == 'pending' and not R:
+            return 'unknown'                 # the result was discarded: the pair may have been acquired
+        return (hold[0], R) + hold[2:]
+
+    # integer locals that subscript the descriptor array somewhere: followed exactly while they hold small constants, so a
+    # loop over the pair is walked iteration by iteration
+    idxvars = set()
+    for e_ in g.events():
+        if e_['ev'] == 'call' and e_.get('callee') in CLOSE and e_.get('args'):
+            a_ = strip(e_['args'][0])
+            if isinstance(a_, dict) and a_.get('k') == 'index' and var_name(a_.get('idx')):
+                idxvars.add(var_name(a_['idx']))
+
+    def step_env(e, env):
+        l = strip(e['lhs'])
+        pl = h18.plain_lhs(e['lhs'])
+        if pl is not None:
+            l = pl
+        if not (isinstance(l, dict) and l.get('k') == 'var' and l['name'] in idxvars):
+            return env
+        nm = l['name']
+        d = dict(env)
+        old = d.pop(nm, None)
+        op = e.get('op')
+        new = None
+        if op == '=' and 'rhs' in e:
+            new = _intval(e['rhs'])
+        elif old is not None and op in ('++', '--'):
+            new = old + (1 if op == '++' else -1)
+        elif old is not None and op in ('+=', '-=') and 'rhs' in e and _intval(e['rhs']) is not None:
+            new = old + _intval(e['rhs']) * (1 if op == '+=' else -1)
+        if new is not None and -64 <= new <= 64:
+            d[nm] = new
+        return frozenset(d.items())
+
+    def tr1(e, cfg5):
+        env = cfg5[4]
+        if e['ev'] == 'store' and idxvars:
+            env = step_env(e, env)
+        elif e['ev'] == 'call' and env:
+            ks = set()
+            for a_ in e.get('args') or []:
+                a_ = strip(a_)
+                if isinstance(a_, dict) and a_.get('k') == 'addr' and var_name(a_.get('e')):
+                    ks.add(var_name(a_['e']))
+            if ks:
+                env = frozenset(kv for kv in env if kv[0] not in ks)
+        return tr0(e, cfg5[:4], env) + (env,)
+
+    def tr0(e, cfg, env):
+        names, closed, off, hold = cfg
+        if e['ev'] == 'store':
+            l = strip(e['lhs'])
+            pl = h18.plain_lhs(e['lhs'])
+            if pl is not None:
+                l = pl
+            if isinstance(l, dict) and l.get('k') == 'var':
+                nm = l['name']
+                plain = e.get('op') == '=' and 'rhs' in e
+                if nm in gnames:
+                    return (names, closed, False, hold)
+                R = rnames_of(hold)
+                if isinstance(hold, tuple):
+                    if plain and hold[0] == 'pending' and any(_pipe_target_node(x) is not None and member_of_x(_pipe_target_node(x), names)
+                                                               for x in walk(e['rhs'])):
+                        if _pipe_target_node(strip(e['rhs'])) is None:
+                            return (names, closed, off, 'unknown')       # the result is consumed inside an expression: not followed
+                        return (names, closed, off, with_rnames(hold, R | {nm}))
+                    if plain and hold[0] == 'ok' and _intval(e['rhs']) == 0:
+                        return (names, closed, off, with_rnames(hold, R | {nm}))      # one more local known to be 0
+                    if plain and var_name(e['rhs']) in R and var_name(e['rhs']) != nm:
+                        return (names, closed, off, with_rnames(hold, R | {nm}))
+                    if nm in R:
+                        hold = with_rnames(hold, R - {nm})
+                if plain and var_name(e['rhs']) in names and nm not in names:
+                    return (names | {nm}, closed, off, hold)
+                if nm == xn:
+                    r = e.get('rhs')
+                    fr = plain and any(x.get('k') == 'call' and x.get('callee') in ('malloc', 'calloc') for x in walk(r))
+                    src = var_name(r) if plain else None
+                    return (frozenset([xn]) | (frozenset([src]) if src else frozenset()), frozenset(), off, 'none' if fr else 'unknown')
+                if nm in names:
+                    return (names - {nm}, closed, off, hold)
+                return (names, closed, off, hold)
+            elif any(a_[1] == canon(l) for a_ in guards):
+                return (names, closed, False, hold)
+            elif isinstance(l, dict) and l.get('k') == 'index' and member_of_x(l['base'], names):
+                # a descriptor is stored into the array by hand (copied from a local pair): from here on the block holds it
+                c = V.const_int(l['idx'], (e['_b'], e['_i']))
+                return (names, (closed - {c}) if c is not None else frozenset(), off, 'unknown')
+            return cfg
+        if e['ev'] == 'call':
+            t = _pipe_target(e)
+            if t is not None:
+                if member_of_x(t, names):
+                    return (names, frozenset(), off, ('pending', frozenset(), hold if hold in ('none', 'unknown') else 'unknown'))
+                return cfg
+            c = e.get('callee')
+            if c in CLOSE and e.get('args'):
+                ci = closed_index(e['args'][0], names, (e['_b'], e['_i']), env)
+                if ci:
+                    return (names, closed | ci, off, hold)
+                return cfg
+            if c and c not in PRIMITIVES:
+                t_ = prog.resolve(unit, c) if unit else None
+                if t_ is not None and t_.blocks and any(about_x(a, names) for a in e.get('args') or []):
+                    return (names, closed, off, 'unknown')      # library code not in sight was handed the block
+        return cfg
+
+    def transfer(e, S):
+        out = frozenset(tr1(e, c) for c in S)
+        if len(out) > 400:
+            raise AnalysisBroken('descriptor analysis of %s: too many configurations' % g.name)
+        return out
+
+    def edge(blk, si, S):
+        if not blk.term or blk.term.get('cond') is None or len(blk.succ) != 2 or blk.term.get('cls') in ('SwitchStmt', 'MethodDispatch'):
+            return S
+        allat = h18._cond_atoms(blk.term['cond'], si == 0)
+        if any(a[0] == 'const' and a[1] == 'False' for a in allat):
+            return None
+        atoms = [(a[0], a[1], a[2]) for a in allat if a[0] != 'const']
+        if not atoms:
+            return S
+        turn_off = any(_contradicts(a, gd) for a in atoms for gd in guards)
+        turn_on = not turn_off and any(a[1] == gd[1] for a in atoms for gd in guards)     # the mode variable was tested and is not off
+        out = set()
+        for (names, closed, off, hold, env) in S:
+            dead = any(a[1] == kv[0] and _contradicts(a, ('==', kv[0], str(kv[1]))) for a in atoms for kv in env)
+            if isinstance(hold, tuple):
+                for a in atoms:
+                    if not isinstance(hold, tuple) or a[1] not in hold[1]:
+                        continue
+                    failed = _contradicts(a, ('==', a[1], '0'))
+                    okay = _contradicts(a, ('<', a[1], '0'))
+                    if hold[0] == 'pending':
+                        if failed:
+                            hold = hold[2]
+                        elif okay:
+                            hold = ('ok', hold[1])
+                    elif failed:
+                        dead = True
+            if not dead:
+                out.add((names, closed, (off or turn_off) and not turn_on, hold, env))
+        return frozenset(out) if out else None
+    init = frozenset([(frozenset([xn]), frozenset(), False, 'unknown', frozenset())])
+    _, ev_in = forward(g, init, transfer, lambda a, b: a | b, edge=edge)
+    S = ev_in.get((site['_b'], site['_i']))
+    if S is None:
+        return 'unreachable', 'the call cannot be reached'
+    need = frozenset(range(n))
+    bad = [c for c in S if not (c[2] or c[3] == 'none' or need <= c[1])]
+    where = '%s->%s' % (xn, '.'.join(path))
+    if bad:
+        c = bad[0]
+        return None, 'on some path to free(%s) only the descriptors %s of %s were closed, the block may hold a pair (%s) and the path does ' \
+                     'not exclude the mode in which it is acquired (%s)' \
+            % (xn, sorted(c[1]) or 'none', where, c[3] if isinstance(c[3], str) else c[3][0],
+               ', '.join('%s %s %s' % (a[1], a[0], a[2]) for a in sorted(guards)) or 'always')
+    how = sorted({'mode off' if c[2] else 'nothing acquired' if c[3] == 'none' else 'closed' for c in S})
+    return '/'.join(how), 'every path to free(%s): %s[0..%d] closed, or the mode (%s) is off, or the block is fresh and its pair was not ' \
+                          'acquired [%s]' % (xn, where, n - 1, ', '.join('%s %s %s' % (a[1], a[0], a[2]) for a in sorted(guards)) or 'none',
+                                             '/'.join(how))
+
+
+def owned_descriptors(ctx):
+    prog = ctx.prog
+    blocks = descriptor_blocks(prog)
+    if not blocks:
+        raise AnalysisBroken('no heap block receives descriptors from pipe()/pipe2()')
+    for (rec, path), (guards, acqs) in sorted(blocks.items()):
+        def is_site(e, rec=rec):
+            if e['ev'] != 'call' or e.get('callee') not in h18.FREE or not e.get('args'):
+                return False
+            a = strip(e['args'][0])
+            return isinstance(a, dict) and a.get('k') == 'var' and a.get('record') == rec and a.get('ptr')
+
+        def collect(V, events, context=False, is_site=is_site):
+            out = {}
+            for e in events:
+                if is_site(e):
+                    out.setdefault(e['loc'], []).append(e)
+            return out
+        owners = roles.functions_with(prog, is_site)
+        if not owners:
+            ctx.ob('R-C18j.fd', '%s.%s:never freed' % (rec, '.'.join(path)), False, loc=acqs[0][1]['loc'],
+                   detail='blocks of this type receive a descriptor pair but no free() of such a block exists')
+            continue
+        for f in owners:
+            res = h18.site_verdict(prog, f, collect, lambda V, s, rec=rec, path=path, guards=guards: _closed_before_free(prog, V, s, rec, path, guards))
+            for loc, (site, proof, det, kind) in sorted(res.items(), key=lambda kv: h18._locpos(kv[0])):
+                ctx.ob('R-C18j.fd', '%s.%s:free in %s' % (rec, '.'.join(path), f.name), bool(proof), loc=loc,
+                       detail='%s (%s)' % (det, kind), fn=f.q)
